@@ -29,7 +29,9 @@ Abstractions (tied to the code by the correspondence harness `harness/cmd/c45`, 
 * a failed invocation leaves no trace (the caller discards the `CacheDB` of a failed transaction).
 * attribute / service / context payloads are opaque byte strings; size limits of a single attribute (80/64/512K) and
   the 1 MB limit of the key list are not modelled. `MAX_NUM = 100` attributes is.
-* a Go run-time panic is the result `panic` (reachable: `revokePkByIndex` with index 0, after authorization).
+* no modelled path panics. (`revokePkByIndex` used to wrap `index -= 1` for index 0 and panic on the slice access;
+  since /repo bdce7b3a index 0 is refused like an out-of-range index. The harness reports any Go panic inside the
+  contract as a predicate failure, and the old witness is a corpus line.)
 -/
 namespace OntVerif.Model.OntId
 open OntVerif.Util
@@ -144,7 +146,6 @@ inductive CtrlArg where
 inductive Result where
   | ok
   | fail
-  | panic
   deriving DecidableEq, Repr
 
 /-! ## utils.go / owner.go -/
@@ -207,15 +208,13 @@ def revokePk (keys : List Key) (pub : Bytes) : Option (List Key) :=
 inductive EffRes where
   | ok (x : Ident)
   | fail
-  | panic
 
-/-- `revokePkByIndex`: `len < index` is refused, then `index -= 1` wraps for index 0 and the slice access panics -/
-def revokePkByIndex (keys : List Key) (idx : Nat) : Option (Option (List Key)) :=
-  if keys.length < idx then some none
-  else if idx = 0 then none                      -- publicKeys[4294967295]: Go panic
+/-- `revokePkByIndex`: index 0 and `len < index` are refused ("no such key"), an already revoked entry too -/
+def revokePkByIndex (keys : List Key) (idx : Nat) : Option (List Key) :=
+  if idx = 0 || keys.length < idx then none
   else match keys[idx - 1]? with
-    | none => some none
-    | some k => if k.revoked then some none else some (some (keys.set (idx - 1) { k with revoked := true }))
+    | none => none
+    | some k => if k.revoked then none else some (keys.set (idx - 1) { k with revoked := true })
 
 /-- `changePkAuthentication` -/
 def changePkAuth (keys : List Key) (idx : Nat) (b : Bool) : Option (List Key) :=
@@ -445,9 +444,8 @@ def applyEff (env : Env) (tx : Tx) (w : World) (id : Bytes) : Eff → EffRes
     | some ks => .ok { (w id) with keys := ks }
   | .revokeKeyIdx i =>
     match revokePkByIndex (w id).keys (u32 i) with
-    | none => .panic
-    | some none => .fail
-    | some (some ks) => .ok { (w id) with keys := ks }
+    | none => .fail
+    | some ks => .ok { (w id) with keys := ks }
   | .setAuth i b =>
     match changePkAuth (w id).keys (u32 i) b with
     | none => .fail
@@ -591,7 +589,7 @@ def statusOk (env : Env) (w : World) (p : Plan) : Bool :=
   if p.reg then env.validId p.id && env.encodable p.id && (w p.id).status == .absent
   else env.encodable p.id && (w p.id).status == .valid
 
-/-- one native invocation. Failure and panic leave the storage as it was (transaction rollback). -/
+/-- one native invocation. Failure leaves the storage as it was (transaction rollback). -/
 def step (env : Env) (tx : Tx) (w : World) (op : Op) : World × Result :=
   let p := plan env op
   if p.newOnly && !tx.newApi then (w, .fail)
@@ -601,7 +599,6 @@ def step (env : Env) (tx : Tx) (w : World) (op : Op) : World × Result :=
   else match applyEff env tx w p.id p.eff with
     | .ok x => (w.set p.id x, .ok)
     | .fail => (w, .fail)
-    | .panic => (w, .panic)
 
 /-- a history: each invocation comes with its own transaction (witness set, height side) -/
 abbrev History := List (Tx × Op)
